@@ -1,91 +1,176 @@
 """C08 - type annotations are optional and never change the generated code.
 
-SyltAnnot (TLA+) defines the annotation sites of a program and the erasure universe Masks(n, np); MC_Annot
-emits SyltGen's programs with their site counts (mode emit) and validates the recorded compile results (mode
-validate): the record must cover the spec's mask universe (Assert: a tool error otherwise), every variant must be
-accepted and all variants of one program must have the same Lua digest.
+SyltAnnot (TLA+) defines the annotation sites of a program and the erasure universe Masks(n, np).  Two universes of
+programs are emitted by TLC with their site counts:
+  * MC_Annot: SyltGen's pairwise-nesting programs,
+  * MC_AnnotFam: the annotation-type families of SyltAnnotFam (G: generic / structured nominal types at two
+    instantiations, S: generic function signatures, F: function-typed variable definitions).
+The harness compiles every erasure variant of every program; MC_AnnotVal checks the recorded results: the
+record must cover the spec's mask universe (Assert: a tool error otherwise), every variant must be accepted and all
+variants of one program must have the same Lua digest.
 """
+import json
 import os
 import random
 import vlib
 
 PID = "C08"
 
+# dimensions of family G every run must have exercised (vacuity guard), read off the case ids
+G_KINDS = {"Box", "Opt", "Maybe", "Pair", "Cell", "WrapG", "Wrap", "Act", "Star"}
+G_NESTS = {"flat", "list", "tup", "opt", "box"}
+G_INNERS = {"bare", "app", "part"}
+G_SITES = {"varc", "varm", "param", "ret", "pret", "lam", "lamret", "global", "gparam", "gret", "gpret"}
+G_CTXS = {"plain", "clo", "loop", "arm", "ifarm", "block", "method"}
+G_PLACES = {"same12", "same21", "u1fn_before", "u1fn_after", "u2fn_before", "u2fn_after"}
+
+
+def family(case):
+    o = case["id"].get("o", "")
+    return o[0] if len(o) > 1 and o[1] == ":" else "P"      # P = pairwise-nesting universe
+
+
+def culprit(rec):
+    """the single site (1-based, printer order) whose erasure alone separates the bad variants from the good ones"""
+    res = rec["results"]
+    ref = next((r["digest"] for r in res if r["class"] == "ok"), None)
+    bad = [r for r in res if r["class"] != "ok" or r["digest"] != ref]
+    good = [r for r in res if not (r["class"] != "ok" or r["digest"] != ref)]
+    if not bad or not good:
+        return "all" if not good else "none"
+    n = rec["nsites"]
+    hits = [j + 1 for j in range(n) if all(not r["mask"][j] for r in bad) and all(r["mask"][j] for r in good)]
+    if len(hits) == 1:
+        return str(hits[0])
+    hits = [j + 1 for j in range(n) if all(r["mask"][j] for r in bad) and all(not r["mask"][j] for r in good)]
+    return "on%d" % hits[0] if len(hits) == 1 else "mixed"
+
 
 def run(ctx):
     tier = ctx.tier
+    quick = tier == "quick"
     wd = vlib.workdir(PID)
     ev = vlib.Evidence(PID, tier, "model_checking")
     verdicts = vlib.Verdicts(PID)
     vlib.build_harness()
-    maxexh = 8 if tier == "quick" else 6
+    maxexh = 8 if quick else 6
+    # a thorough run may be long on a busy machine; it must not die of a timeout
+    tmo = 1800 if quick else 10800
+    tseed = ["-seed", str(ctx.seed % (2 ** 31))]
 
     if ctx.replay:
-        import json
         cases = [json.load(open(ctx.replay))["replay"]["case"]]
     else:
-        r = vlib.tlc("MC_Annot", wd=wd, env={"MODE": "emit", "MAXEXH": maxexh}, timeout=1800, xmx="12g")
+        # universe 1: pairwise nesting (quick: TLC emits the programs of a seeded random subset of the keys)
+        r = vlib.tlc("MC_Annot", wd=wd, env={"SAMPLE": 500 if quick else 0}, timeout=tmo, xmx="12g", extra=tseed)
         vlib.require_tlc_ok(r, "MC_Annot emit")
-        allcases = [p for (_, p) in r.records]
+        # universe 2: annotation-type families (quick: family S complete, seeded random subsets of G and F)
+        rf = vlib.tlc("MC_AnnotFam", wd=wd, env={"GSAMPLE": 700 if quick else 0, "FSAMPLE": 120 if quick else 0},
+                      timeout=tmo, xmx="12g", extra=tseed)
+        vlib.require_tlc_ok(rf, "MC_AnnotFam emit")
         seen = set()
         cases = []
-        for c in allcases:
+        for c in [p for (_, p) in r.records] + [p for (_, p) in rf.records]:
             h = vlib.sha(c["tops"])
             if h not in seen:
                 seen.add(h)
                 cases.append(c)
-        ev.set(universe_programs=len(cases), states=r.distinct, transitions=r.generated)
-        if tier == "quick":
+        nfam = {f: sum(1 for c in cases if family(c) == f) for f in "PGSF"}
+        ev.set(emitted_programs=len(cases), emitted_per_family=nfam, states=r.distinct + rf.distinct,
+               transitions=r.generated + rf.generated)
+        if quick:
             rnd = random.Random(ctx.seed)
-            cases = rnd.sample(cases, min(len(cases), 600))
-        if len(cases) < 500:
-            vlib.tool_error("vacuity: only %d programs" % len(cases))
+            p = [c for c in cases if family(c) == "P"]
+            cases = rnd.sample(p, min(len(p), 600)) + [c for c in cases if family(c) != "P"]
+            nfam = {f: sum(1 for c in cases if family(c) == f) for f in "PGSF"}
+        # vacuity guards: enough programs of every family, every dimension of family G exercised
+        need = {"P": 500, "G": 600, "S": 130, "F": 100} if quick else {"P": 10000, "G": 8000, "S": 130, "F": 400}
+        for f in "PGSF":
+            if nfam[f] < need[f]:
+                vlib.tool_error("vacuity: only %d programs of family %s (need %d)" % (nfam[f], f, need[f]))
+        dims = [set(), set(), set(), set(), set(), set()]
+        for c in cases:
+            if family(c) == "G":
+                i = c["id"]
+                _, g, n, f = i["o"].split(":")
+                s, cx, _ = i["i"].split(":")
+                pl = i["h"].split(":")[0]
+                for d, x in zip(dims, (g, n, f, s, cx, pl)):
+                    d.add(x)
+        for d, want, name in zip(dims, (G_KINDS, G_NESTS, G_INNERS, G_SITES, G_CTXS, G_PLACES),
+                                 ("kinds", "nests", "inner forms", "sites", "contexts", "placements")):
+            if d != want:
+                vlib.tool_error("vacuity: family G %s exercised %s, expected %s" % (name, sorted(d), sorted(want)))
 
     cf = os.path.join(wd, "cases.ndjson")
     tf = os.path.join(wd, "trace.ndjson")
     vlib.write_ndjson(cf, cases)
-    vlib.harness("c08", ["record", cf, tf, maxexh], timeout=3000)
+    vlib.harness("c08", ["record", cf, tf, maxexh], timeout=tmo)
     recs = vlib.read_ndjson(tf)
-    v = vlib.tlc("MC_Annot", wd=wd, env={"MODE": "validate", "TRACE": tf, "MAXEXH": maxexh}, tags=("REJECT",),
-                 timeout=1800, xmx="12g", out_file=os.path.join(wd, "tlc-validate.out"))
-    vlib.require_tlc_ok(v, "MC_Annot validate")
+    # validation in chunks (bounds TLC's memory in the thorough tier; the chunks are independent)
+    chunk = 3000
+    vstates = vtrans = 0
+    for lo in range(0, len(recs), chunk):
+        part = recs[lo:lo + chunk]
+        ptf = tf if len(recs) <= chunk else os.path.join(wd, "trace-%d.ndjson" % lo)
+        if ptf != tf:
+            vlib.write_ndjson(ptf, part)
+        v = vlib.tlc("MC_AnnotVal", wd=wd, env={"TRACE": ptf, "MAXEXH": maxexh}, tags=("REJECT",),
+                     timeout=tmo, xmx="12g", out_file=os.path.join(wd, "tlc-validate-%d.out" % lo))
+        vlib.require_tlc_ok(v, "MC_AnnotVal")
+        if v.coverage.get("Validate", (0, 0))[0] < len(part):
+            vlib.tool_error("vacuity: Validate fired for %s of %d records" % (v.coverage.get("Validate"), len(part)))
+        vstates += v.distinct
+        vtrans += v.generated
+        for (_, rej) in {(t, vlib.sha(p)): (t, p) for (t, p) in v.records}.values():
+            rec = recs[lo + rej["rec"] - 1]
+            case = cases[lo + rej["rec"] - 1]
+            bad = [rec["results"][j - 1] for j in rej["bad"]][:3]
+            cid = case["id"]
+            sig = "C08|%s|%s|%s|%s" % (rej["why"], cid.get("o"), cid.get("i"), cid.get("h"))
+            if family(case) != "P":
+                sig += "|site=%s" % culprit(rec)
+            verdicts.add(sig, "annotation variants disagree (%s): %s" % (rej["why"], str([b.get("detail") or b["digest"] for b in bad])[:200]),
+                         {"case": case, "bad_variants": bad, "reference_digest": rec["results"][0]["digest"]})
     nvariants = sum(len(r_["results"]) for r_ in recs)
     exhaustive_programs = sum(1 for r_ in recs if r_["nsites"] - r_["nprelude"] <= maxexh)
-    for (_, rej) in {(t, vlib.sha(p)): (t, p) for (t, p) in v.records}.values():
-        rec = recs[rej["rec"] - 1]
-        case = cases[rej["rec"] - 1]
-        bad = [rec["results"][j - 1] for j in rej["bad"]][:3]
-        cid = case["id"]
-        sig = "C08|%s|%s|%s|%s" % (rej["why"], cid.get("o"), cid.get("i"), cid.get("h"))
-        verdicts.add(sig, "annotation variants disagree (%s): %s" % (rej["why"], str([b.get("detail") or b["digest"] for b in bad])[:200]),
-                     {"case": case, "bad_variants": bad, "reference_digest": rec["results"][0]["digest"]})
 
     if not ctx.replay:
-        # negative control: salted digest must be rejected by the specification
-        sub = cases[:40]
+        # negative control: salted digest must be rejected by the specification (programs of both universes)
+        sub = [c for c in cases if family(c) == "P"][:20] + [c for c in cases if family(c) != "P"][:20]
         ncf = os.path.join(wd, "neg-cases.ndjson")
         ntf = os.path.join(wd, "neg-trace.ndjson")
         vlib.write_ndjson(ncf, sub)
         vlib.harness("c08", ["record", ncf, ntf, maxexh], env={"C08_STUB": "salt"})
-        nv = vlib.tlc("MC_Annot", wd=wd, env={"MODE": "validate", "TRACE": ntf, "MAXEXH": maxexh}, tags=("REJECT",),
-                      workers=4, out_file=os.path.join(wd, "tlc-neg.out"))
-        vlib.require_tlc_ok(nv, "MC_Annot negative control")
+        nv = vlib.tlc("MC_AnnotVal", wd=wd, env={"TRACE": ntf, "MAXEXH": maxexh}, tags=("REJECT",),
+                      workers=4, timeout=tmo, out_file=os.path.join(wd, "tlc-neg.out"))
+        vlib.require_tlc_ok(nv, "MC_AnnotVal negative control")
         nrej = len({p["rec"] for (_, p) in nv.records})
         if nrej != len(sub):
             vlib.tool_error("negative control: only %d of %d salted records rejected" % (nrej, len(sub)))
         ev.set(negative_controls_rejected=nrej)
 
-    ev.add("states", v.distinct)
-    ev.add("transitions", v.generated)
-    ev.set(traces_validated_against_impl=len(recs), programs=len(recs), evaluations=nvariants,
+    ev.add("states", vstates)
+    ev.add("transitions", vtrans)
+    perfam = {f: sum(1 for c in cases if family(c) == f) for f in "PGSF"}
+    samples = []
+    for f in "PGSF":
+        samples += [{"id": r_["id"], "nsites": r_["nsites"], "nprelude": r_["nprelude"], "variants": len(r_["results"])}
+                    for (c, r_) in zip(cases, recs) if family(c) == f][:2]
+    ev.set(traces_validated_against_impl=len(recs), programs=len(recs), programs_per_family=perfam, evaluations=nvariants,
            distinct_nontrivial=len(recs), programs_with_all_subsets=exhaustive_programs,
            exhaustive=(tier == "thorough"),
-           rule="programs of SyltGen's universe (quick: seeded sample of 600); per program every mask of SyltAnnot!Masks "
-                "(all subsets of the non-prelude sites when <= %d, plus all-on/all-off/single-off/single-on/prefix-off over all sites); "
-                "a program is non-trivial when it has >= 1 site (all have >= 20)" % maxexh,
-           samples=[{"id": r_["id"], "nsites": r_["nsites"], "variants": len(r_["results"])} for r_ in recs[:3]],
+           rule="P: programs of SyltGen's pairwise-nesting universe (quick: seeded sample of 600); G / S / F: the annotation-type families "
+                "of SyltAnnotFam (quick: all of S, seeded samples of 700 of G and 120 of F; every kind, nest, inner form, site, context "
+                "and placement of G must occur); per program every mask of SyltAnnot!Masks (all subsets of the program-specific sites "
+                "when <= %d - always the case in G / S / F -, plus all-on/all-off/single-off/single-on/prefix-off over all sites); "
+                "a program is non-trivial when it has >= 1 site of its own (asserted by TLC for G / S / F; all P have >= 20)" % maxexh,
+           samples=samples,
            known_findings_hit=verdicts.known_hits)
-    ev.assume("annotation sites are variable definitions of non-function values, parameters of non-function type, and return types of value-returning functions",
+    ev.assume("annotation sites are variable definitions whose value is not a function literal (function-typed values included), parameters of "
+              "non-function type, and return types of value-returning functions",
+              "a parameter through which a function value is reached and called in the body (SyltAnnotFam!PK) is not a site: a call is "
+              "typed where it is written, like for parameters of function type",
               "the printer writes the sites in the order the specification counts them; the count is cross-checked per program")
     rc = verdicts.finish()
     ev.violations = len(verdicts.violations)
